@@ -89,7 +89,10 @@ class LConc(LT):
     def sel(self, j):
         j = simp_int(j)
         if isinstance(j, int):
-            return self.items[j]
+            if 0 <= j < len(self.items):
+                return self.items[j]
+            # out of range: only reachable under a false guard of an enclosing if-then-else
+            return self.items[-1] if self.items else z3.IntVal(0)
         # symbolic index into a concrete list: if-chain (elements must be liftable)
         if not self.items:
             raise IndexError
@@ -166,6 +169,18 @@ class LMap(LT):
         return z3.substitute(self.expr, (self.var, lift(self.base.sel(j))))
 
 
+ENTAILS = None   # set by the engine: callable(z3 Bool) -> True when the current path condition implies it
+
+
+def _entailed(c):
+    if ENTAILS is None:
+        return False
+    try:
+        return bool(ENTAILS(c))
+    except Exception:  # noqa
+        return False
+
+
 def clamp_slice(n, lo, hi):
     """Python slice index normalisation for step 1; returns (lo', hi') with
     0 <= lo' <= hi' <= n as (possibly symbolic) ints."""
@@ -181,6 +196,8 @@ def clamp_slice(n, lo, hi):
                 i_ += nn
             return max(0, min(nn, i_))
         iz = zint(i_)
+        if _entailed(z3.And(iz >= 0, iz <= n_)):
+            return i_
         if is_conc_int(i_) and i_ >= 0:
             return simp_int(z3.If(iz > n_, n_, iz))
         adj = z3.If(iz < 0, iz + n_, iz)
@@ -190,6 +207,8 @@ def clamp_slice(n, lo, hi):
     hi2 = norm(hi, simp_int(n))
     if is_conc_int(lo2) and is_conc_int(hi2):
         return lo2, max(lo2, hi2)
+    if _entailed(zint(lo2) <= zint(hi2)):
+        return lo2, hi2
     hi3 = simp_int(z3.If(zint(hi2) < zint(lo2), zint(lo2), zint(hi2)))
     return lo2, hi3
 
